@@ -21,16 +21,19 @@ def main():
     wt, out = f"/tmp/wt-{name}", f"/tmp/out-{name}"
     env = dict(os.environ, PYTHONPATH=f"{wt}/perception_eval")
     rec = dict(name=name, property=pid, ran=[])
-    patch = sh(f"git -C {wt} diff").stdout
-    open(f"{out}/patch.diff", "w").write(patch)
+    if not os.path.exists(f"{out}/patch.diff") or os.path.getsize(f"{out}/patch.diff") == 0:
+        open(f"{out}/patch.diff", "w").write(sh(f"git -C {wt} diff").stdout)
     demo = f"/venv/bin/python {out}/demo.py"
+    # never `git stash` here: the stash is shared between worktrees; make the tree clean, apply / un-apply the patch file
+    sh(f"git -C {wt} checkout -- .")
+    sh(f"git -C {wt} apply {out}/patch.diff")
     r1 = sh(demo, env=env)
-    sh(f"git -C {wt} stash")
+    sh(f"git -C {wt} apply -R {out}/patch.diff")
     r0 = sh(demo, env=env)
-    sh(f"git -C {wt} stash pop")
+    sh(f"git -C {wt} apply {out}/patch.diff")
     rec["demo_with_change_rc"], rec["demo_without_change_rc"] = r1.returncode, r0.returncode
     rec["demo_message"] = (r1.stdout + r1.stderr).strip().splitlines()[-1][:400] if (r1.stdout + r1.stderr).strip() else ""
-    rec["ran"].append(f"PYTHONPATH={wt}/perception_eval {demo}  (with change: rc {r1.returncode}; after git stash: rc {r0.returncode})")
+    rec["ran"].append(f"PYTHONPATH={wt}/perception_eval {demo}  (with the patch applied: rc {r1.returncode}; with the patch reverted: rc {r0.returncode})")
     print(f"demo: with change rc={r1.returncode}, without rc={r0.returncode}")
     if "--tests" in sys.argv:
         t = sh(f"cd {wt} && /venv/bin/python -m pytest -q -p no:cacheprovider --timeout=900 perception_eval/test 2>&1 | tail -1", env=env)
